@@ -402,12 +402,15 @@ package cache
 // timestamp read at the start of the call; keys and values are untouched.
 
 //@ func (*shardedMap).ExpireAll
-//@   props C07 C08 C16 C11
+//@   props C07 C08 C16 C11 C18
 //@   replayfor guard: entryrace backend:=sharded
 //@   replayfor C11.unl unlimited backend:=sharded
 //@   requires ctx != nil && repOK(c)
 //@   requires c.t.expirationsSet >= 0 && c.t.expirationsSet < 4611686018427387904
 //@   ensures [C11.unl.expireall] unlimitedInv(c)
+//@   ensures [C18.expireall.count] c.t.Stat != nil && iterated() - old(iterated()) <= 9007199254740992 ==> metric(MetricExpired) == old(metric(MetricExpired)) + real(iterated() - old(iterated()))
+//@   loop 1 invariant [C18.ea.count] cnt == iterated() - old(iterated()) && cnt >= 0 && noMetric()
+//@   loop 2 invariant [C18.ea.in.count] cnt == iterated() - old(iterated()) && cnt >= 0 && noMetric()
 //@   ensures [C07.expireall.dom] mapKept(c)
 //@   ensures [C07.expireall.expired] forall h uint64 :: hasH(c, h) ==> ent(c, h).E == now(1)
 //@   ensures [C07.expireall.kv] forall p *TraitEntry :: old(allocated(p)) ==> p.K == old(p.K) && p.V == old(p.V) && p.C == old(p.C)
@@ -420,7 +423,7 @@ package cache
 //@   loop 2 invariant [C07.ea.in.visited] forall h uint64 :: h % 128 == i && visited(h) && hasH(c, h) ==> ent(c, h).E == startTS
 //@   loop 2 invariant [C07.ea.in.done] forall h uint64 :: h % 128 < i && hasH(c, h) ==> ent(c, h).E == startTS
 //@   loop 2 invariant [C07.ea.in.kv] forall p *TraitEntry :: old(allocated(p)) ==> p.K == old(p.K) && p.V == old(p.V) && p.C == old(p.C)
-//@   modifies H|TraitEntry|.E* M|map[uint64]*TraitEntry|* H|Trait|.expirationsSet @stat @log @clock
+//@   modifies H|TraitEntry|.E* M|map[uint64]*TraitEntry|* H|Trait|.expirationsSet G|iterated @stat @log @clock
 
 // DeleteAll: the cache is empty afterwards.
 
@@ -438,7 +441,7 @@ package cache
 //@   loop 2 (range c.hashedBuckets[i].data) invariant [C07.da.in.visited] forall h uint64 :: visited(h) ==> !has(c.hashedBuckets[i].data, h)
 //@   loop 2 invariant [C07.da.in.done] forall h uint64 :: h % 128 < i ==> !hasH(c, h)
 //@   loop 2 invariant [C07.da.in.shard] keysInShard(c)
-//@   modifies M|map[uint64]*TraitEntry|* G|removed @stat @log G|clock G|clk G|nclk
+//@   modifies M|map[uint64]*TraitEntry|* G|removed G|iterated @stat @log G|clock G|clk G|nclk
 
 //@ func (*shardedMapOf[V]).ExpireAll
 //@   like (*shardedMap).ExpireAll subst TraitEntry=TraitEntryOf[V]
@@ -1072,11 +1075,13 @@ package cache
 //@   immutable InvalidationIndex t
 
 //@ func (*syncMap).ExpireAll
-//@   props C07 C16 C11
+//@   props C07 C16 C11 C18
 //@   replayfor C11.unl unlimited backend:=syncmap
 //@   requires ctx != nil && sRepOK(c)
 //@   requires c.t.expirationsSet >= 0 && c.t.expirationsSet < 4611686018427387904
 //@   ensures [C11.unl.sm.expireall] sUnlimitedInv(c)
+//@   ensures [C18.sm.expireall.count] c.t.Stat != nil && iterated() - old(iterated()) <= 9007199254740992 ==> metric(MetricExpired) == old(metric(MetricExpired)) + real(iterated() - old(iterated()))
+//@   range 1 invariant [C18.sm.ea.count] cnt == iterated() - old(iterated()) && cnt >= 0 && cnt == visitedCount() && noMetric()
 //@   ensures [C07.sm.expireall.dom] sMapKept(c)
 //@   ensures [C07.sm.expireall.expired] forall s string :: sHas(c, s) ==> sEnt(c, s).E == now(1)
 //@   ensures [C07.sm.expireall.kv] forall p *TraitEntry :: old(allocated(p)) ==> p.K == old(p.K) && p.V == old(p.V) && p.C == old(p.C)
@@ -1167,7 +1172,7 @@ package cache
 //@   ensures [C13.dump.only] forall j int :: l0 <= j && j < gobLen() ==> srcOK(c.shardedMap, j)
 //@   ensures [C13.dump.kept] mapKept(c.shardedMap) && entriesKept() && gobPos() == old(gobPos())
 //@   ensures [C13.dump.prefix] forall j int :: 0 <= j && j < l0 ==> gobK(j) == old(gobK(j)) && gobV(j) == old(gobV(j)) && gobE(j) == old(gobE(j)) && gobC(j) == old(gobC(j))
-//@   modifies G|gob|K G|gob|Vtag G|gob|Vval G|gob|E G|gob|C G|gob|len G|gob|src G|gob|idx G|alloc
+//@   modifies G|gob|K G|gob|Vtag G|gob|Vval G|gob|E G|gob|C G|gob|len G|gob|src G|gob|idx G|iterated G|alloc
 
 //@ func (*shardedMap).Walk
 //@   inline
@@ -1201,7 +1206,7 @@ package cache
 //@   ensures [C13.sm.dump.entries] result1 == nil ==> forall s string :: sHas(c.syncMap, s) ==> encoded(sEnt(c.syncMap, s), l0)
 //@   ensures [C13.sm.dump.only] forall j int :: l0 <= j && j < gobLen() ==> sSrcOK(c.syncMap, j)
 //@   ensures [C13.sm.dump.kept] sMapKept(c.syncMap) && entriesKept() && gobPos() == old(gobPos())
-//@   modifies G|gob|K G|gob|Vtag G|gob|Vval G|gob|E G|gob|C G|gob|len G|gob|src G|gob|idx G|alloc
+//@   modifies G|gob|K G|gob|Vtag G|gob|Vval G|gob|E G|gob|C G|gob|len G|gob|src G|gob|idx G|iterated G|alloc
 
 //@ func (*syncMap).Walk
 //@   inline
